@@ -12,7 +12,7 @@ from __future__ import annotations
 
 import itertools
 
-from vkit.framework import Prop
+from vkit.framework import Prop, pick
 from vkit.props import lockstep
 
 
@@ -26,7 +26,7 @@ class C05(Prop):
     stubs = ['torch.linalg.eigh / inv -> uninterpreted with congruence', 'math.sqrt -> contract stub']
     trusted_base = ['z3 5.1.0', 'vkit.symex', 'symtorch shim', 'kfac_ref (vkit/kfh.py)']
     replay_tol = 5e-3
-    task_timeout = {'quick': 400, 'thorough': 2400}
+    task_timeout = {'quick': 400, 'thorough': 1200}
 
     def bounds(self, tier):
         return {'operations_from_an_arbitrary_boundary_state': 2 if tier == 'quick' else 3,
@@ -48,6 +48,8 @@ class C05(Prop):
                     if 'partial-reset-train' in s:
                         hook = False
                     if tier == 'quick' and (i + len(''.join(s))) % 3:
+                        continue
+                    if tier == 'thorough' and not pick((tuple(s), method, hp), 4, seed):
                         continue
                     model = ['lin', 'lin-nb', 'conv', 'two'][i % 4]
                     if tier == 'quick' and model == 'two':
